@@ -9,12 +9,13 @@ CODEC_ASSUME = [
 
 CHECKS = {
     "C01": dict(
-        engine="codec", level="exploration",
-        args=dict(quick=["-budget", "6", "-valdev", "1", "-entries", "2"],
-                  thorough=["-budget", "7", "-valdev", "2", "-entries", "3"]),
-        deadline=dict(quick=110, thorough=1500),
+        level="exploration",
+        phases=[dict(engine="codec", args=dict(quick=["-budget", "6", "-valdev", "1", "-entries", "2"],
+                                               thorough=["-budget", "7", "-valdev", "2", "-entries", "3"])),
+                dict(engine="sess", args=[])],
+        deadline=dict(quick=240, thorough=1800),
         rule="every message of the enumerated space (template shape × type order × framing-tag set × header/trailer form × population × value route × value deviation; BodyLength sweep 0..1100 payload bytes; checksum-residue sweep; 11 generated fix44 types) is serialised by the library and checked against the byte-level oracle. A case is non-trivial-distinct by the key (typed body shape, body population, header/trailer population, digit count of BodyLength, checksum class {<10,<100,>=100}).",
-        assumptions=CODEC_ASSUME,
+        assumptions=CODEC_ASSUME + ["second phase (sess engine, schedule exploration): two sessions on independent handlers send messages of different lengths while two application tasks call ToBytes on objects of their own; every schedule within preemption bound 1 (thorough 2) over the library's synchronisation operations (incl. sync.Pool Get/Put and the instant after a Put); every frame on either wire and every returned slice is well-formed, carries its own identifier, and the returned slices read the same at the end"],
     ),
     "C17": dict(
         engine="codec", level="exploration",
